@@ -36,6 +36,7 @@ func runC28(p *Prog, r *Result) {
 	r.Rule("R28b", "explicit panics: exhaustive-switch defaults, infallible-call wrappers and an explicit table of configuration preconditions", 20)
 	r.Rule("R28c", "integers from the program reach indexes, slice bounds, make sizes and repeat counts only under a lower and an upper guard", 6)
 	r.Rule("R28e", "shifts by a signed, non-constant count and integer divisions by a non-constant divisor are dominated by the test that rules out the panicking value", 4)
+	r.Rule("R28g", "interface- and function-typed Runner fields used by code reachable from option closures are initialised by New's literal (options run before the default fallbacks)", 1)
 	r.Rule("R28d", "indexes taken from state that survives a call are guarded against the length of what they index", 2)
 
 	g := buildRefGraph(p)
@@ -59,6 +60,7 @@ func runC28(p *Prog, r *Result) {
 		return
 	}
 	reach := g.reachable(roots...)
+	checkConfigTimeNil(p, r, g)
 	for _, rel := range c28Pkgs {
 		pkg := p.Pkg(rel)
 		if pkg == nil {
@@ -184,7 +186,6 @@ var c28Preconditions = map[string]string{
 	"expand.(listEnviron).Each": "construction invariant: listEnviron_ drops every pair without an equal sign before the list is stored (C34 R34c checks that loop)",
 	"interp.(tracer).expr":      "Printer.Print fails only for an unsupported root node type, for Minify with SingleLine, or when the writer fails; the tracer prints parser-built assignments, words and commands with a default printer into a bytes.Buffer (read)",
 	"interp.(Runner).assignVal": "value invariant: the previous value handed in comes from lookupVar/Resolve, which never yields the pseudo-kind KeepValue and resolves name references first; not a shape fact, listed",
-	"interp.(Runner).Run":     "internal invariant stated in the source: exitStatus.err is only set together with a non-zero code (exit.fatal / fromHandlerError set code); not a shape fact, listed",
 }
 
 func checkPanicsC28(p *Prog, r *Result, g *refGraph, pkg *packages.Package, rel string, fd *ast.FuncDecl) {
@@ -263,6 +264,12 @@ func checkPanicsC28(p *Prog, r *Result, g *refGraph, pkg *packages.Package, rel 
 				r.Bad("R28b", key, c.Pos(), fmt.Sprintf("panics with the error of %s: that call fails for inputs the program controls (e.g. a NUL byte or invalid UTF-8 in a value being quoted), and nothing before it rules them out", name))
 				return true
 			}
+		}
+		// (2b) the exit-status invariant behind Run's panic: err is only ever stored together with a non-zero code
+		if fk == "interp.(Runner).Run" {
+			why, ok := exitStatusInvariant(p, pkg)
+			r.Check(ok, "R28b", key, c.Pos(), why, "Run panics when exitStatus.err is set while the code is zero, and the stores of that pair do not keep them in step: "+why)
+			return true
 		}
 		// (3) preconditions verified at every call site
 		if why, ok, decided := callSitePrecondition(p, g, info, fd); decided {
@@ -864,6 +871,135 @@ func opValuesAt(p *Prog, rel string, fd *ast.FuncDecl, e0 ast.Expr, pos0 token.P
 			}
 	ok := valuesOf(e0, pos0, 0)
 	return out, ok
+}
+
+// exitStatusInvariant: every store of a possibly non-nil value into exitStatus.err is followed, on every path to the
+// function exit, by making the code non-zero (a non-zero constant, `if code == 0 { code = K }`, or a value tested
+// to be non-zero), and every store of zero into code shares its block with err = nil.
+func exitStatusInvariant(p *Prog, pkg *packages.Package) (string, bool) {
+	info := pkg.TypesInfo
+	est := lookupType(pkg, "exitStatus")
+	if est == nil {
+		return "type exitStatus not found", false
+	}
+	var errF, codeF *types.Var
+	st := est.Underlying().(*types.Struct)
+	for i := 0; i < st.NumFields(); i++ {
+		switch st.Field(i).Name() {
+		case "err":
+			errF = st.Field(i)
+		case "code":
+			codeF = st.Field(i)
+		}
+	}
+	if errF == nil || codeF == nil {
+		return "exitStatus has no err/code fields", false
+	}
+	nErr := 0
+	for _, fd := range p.AllFuncDecls("interp") {
+		var g *FGraph
+		var bad string
+		ast.Inspect(fd.Body, func(n ast.Node) bool {
+			as, ok := n.(*ast.AssignStmt)
+			if !ok {
+				return true
+			}
+			for i, l := range as.Lhs {
+				fv := selectorField(info, l)
+				if i >= len(as.Rhs) {
+					continue
+				}
+				switch fv {
+				case errF:
+					if isNilIdent(info, as.Rhs[i]) {
+						continue
+					}
+					nErr++
+					if g == nil {
+						g = NewFGraph(info, fd.Body, nil)
+					}
+					blk, idx := g.BlockOf(as)
+					if blk == nil {
+						bad = "store not found in the flow graph of " + fd.Name.Name
+						continue
+					}
+					makesNonZero := func(k ast.Node) bool {
+						switch x := k.(type) {
+						case *ast.AssignStmt:
+							for j, l2 := range x.Lhs {
+								if selectorField(info, l2) != codeF || j >= len(x.Rhs) {
+									continue
+								}
+								if tv := info.Types[x.Rhs[j]]; tv.Value != nil {
+									return tv.Value.String() != "0"
+								}
+								// code = uint8(v) with v tested non-zero on the way
+								src := stripConv(info, x.Rhs[j])
+								if id, ok := src.(*ast.Ident); ok {
+									o := info.ObjectOf(id)
+									b2, _ := g.BlockOf(x)
+									return b2 != nil && underEdges(g, b2, func(e *FEdge) bool {
+										be, ok := e.Cond.(*ast.BinaryExpr)
+										if !ok || exprString(be.Y) != "0" {
+											return false
+										}
+										bid, ok := ast.Unparen(be.X).(*ast.Ident)
+										if !ok || info.ObjectOf(bid) != o {
+											return false
+										}
+										return (be.Op == token.NEQ && e.Pol) || (be.Op == token.EQL && !e.Pol)
+									})
+								}
+							}
+						}
+						return false
+					}
+					// `if e.code == 0 { e.code = K }`: the false edge of code == 0 also establishes non-zero
+					ok2, _ := g.MustPass(blk, idx, g.Exit, makesNonZero, func(e *FEdge) bool {
+						be, ok := e.Cond.(*ast.BinaryExpr)
+						return ok && be.Op == token.EQL && selectorField(info, be.X) == codeF && exprString(be.Y) == "0" && !e.Pol
+					})
+					if !ok2 {
+						// the store may also sit *after* the code was made non-zero in the same block
+						for _, k := range blk.Nodes[:idx] {
+							if makesNonZero(k) {
+								ok2 = true
+							}
+						}
+					}
+					if !ok2 {
+						bad = fmt.Sprintf("%s stores exitStatus.err at %s and some path leaves with a code that may be zero", fd.Name.Name, p.Position(as.Pos()))
+					}
+				case codeF:
+					if tv := info.Types[as.Rhs[i]]; tv.Value != nil && tv.Value.String() == "0" {
+						// must clear err in the same statement list
+						cleared := false
+						ast.Inspect(fd.Body, func(m ast.Node) bool {
+							if a2, ok := m.(*ast.AssignStmt); ok {
+								for j, l2 := range a2.Lhs {
+									if selectorField(info, l2) == errF && j < len(a2.Rhs) && isNilIdent(info, a2.Rhs[j]) {
+										cleared = true
+									}
+								}
+							}
+							return true
+						})
+						if !cleared {
+							bad = fmt.Sprintf("%s zeroes exitStatus.code at %s without clearing err", fd.Name.Name, p.Position(as.Pos()))
+						}
+					}
+				}
+			}
+			return true
+		})
+		if bad != "" {
+			return bad, false
+		}
+	}
+	if nErr == 0 {
+		return "no store of exitStatus.err found", false
+	}
+	return fmt.Sprintf("exit-status invariant: each of the %d stores of a non-nil exitStatus.err is followed on every path by a non-zero code, and code is only zeroed together with err", nErr), true
 }
 
 // parserStringTable: a string switch with a panicking default nested in `case syntax.K:`; the parser validates the same
@@ -1894,6 +2030,108 @@ func checkStateIndexes(p *Prog, r *Result, pkg *packages.Package, rel string, fd
 	})
 }
 
+// ---------------------------------------------------------------- R28g
+
+func checkConfigTimeNil(p *Prog, r *Result, g *refGraph) {
+	pkg := p.Pkg("interp")
+	if pkg == nil {
+		return
+	}
+	info := pkg.TypesInfo
+	runnerT := lookupType(pkg, "Runner")
+	optT := lookupType(pkg, "RunnerOption")
+	newFD := p.FuncDecl("interp", "New")
+	if runnerT == nil || optT == nil || newFD == nil {
+		r.Fatalf("anchors Runner / RunnerOption / New not found")
+		return
+	}
+	var optCtors []*types.Func
+	for _, fd := range p.AllFuncDecls("interp") {
+		if fd.Recv != nil || fd.Type.Results == nil || len(fd.Type.Results.List) != 1 {
+			continue
+		}
+		if namedOf(info.TypeOf(fd.Type.Results.List[0].Type)) == optT {
+			if fo, ok := info.Defs[fd.Name].(*types.Func); ok {
+				optCtors = append(optCtors, fo)
+			}
+		}
+	}
+	reach := g.reachable(optCtors...)
+	// fields of Runner whose value is used (called through, passed on) in reachable methods of Runner
+	st := runnerT.Underlying().(*types.Struct)
+	nilable := map[*types.Var]bool{}
+	for i := 0; i < st.NumFields(); i++ {
+		switch st.Field(i).Type().Underlying().(type) {
+		case *types.Interface, *types.Signature:
+			nilable[st.Field(i)] = true
+		}
+	}
+	used := map[*types.Var]string{}
+	for fo, fd := range g.decl {
+		if !reach[fo] || g.pkgOf[fo] != pkg || fd.Body == nil {
+			continue
+		}
+		isCtor := false
+		for _, c := range optCtors {
+			if c == fo {
+				isCtor = true
+			}
+		}
+		ast.Inspect(fd.Body, func(n ast.Node) bool {
+			c, ok := n.(*ast.CallExpr)
+			if !ok {
+				return true
+			}
+			// called through: r.f(...) / r.f.M(...); or passed as an argument to a function of another package
+			note := func(e ast.Expr) {
+				if fv := selectorField(info, e); fv != nil && nilable[fv] {
+					if _, seen := used[fv]; !seen {
+						used[fv] = funcKey("interp", fd)
+					}
+				}
+			}
+			if se, ok := c.Fun.(*ast.SelectorExpr); ok {
+				note(se.X)
+			}
+			note(c.Fun)
+			if fn := calleeOf(info, c); fn != nil && fn.Pkg() != pkg.Types {
+				for _, a := range c.Args {
+					note(a)
+				}
+			}
+			return true
+		})
+		_ = isCtor
+	}
+	// keys of New's literal
+	set := map[*types.Var]bool{}
+	ast.Inspect(newFD.Body, func(n ast.Node) bool {
+		cl, ok := n.(*ast.CompositeLit)
+		if !ok || namedOf(info.TypeOf(cl)) != runnerT {
+			return true
+		}
+		for _, el := range cl.Elts {
+			if kv, ok := el.(*ast.KeyValueExpr); ok {
+				if id, ok := kv.Key.(*ast.Ident); ok {
+					if fv, ok := info.Uses[id].(*types.Var); ok && !isNilIdent(info, kv.Value) {
+						set[fv] = true
+					}
+				}
+			}
+		}
+		return true
+	})
+	var fs []*types.Var
+	for fv := range used {
+		fs = append(fs, fv)
+	}
+	sort.Slice(fs, func(i, j int) bool { return fs[i].Name() < fs[j].Name() })
+	for _, fv := range fs {
+		r.Check(set[fv], "R28g", "interp.Runner."+fv.Name()+"#non-nil while options run", newFD.Pos(), "initialised in New's literal (used by "+used[fv]+", which an option can reach)",
+			fmt.Sprintf("%s, reachable from an option closure, calls through Runner.%s, which New leaves nil until after all options ran: an option that gets there panics", used[fv], fv.Name()))
+	}
+}
+
 // ---------------------------------------------------------------- R28e
 
 func checkShiftsAndDivisions(p *Prog, r *Result, pkg *packages.Package, rel string, fd *ast.FuncDecl) {
@@ -1983,6 +2221,10 @@ func checkShiftsAndDivisions(p *Prog, r *Result, pkg *packages.Package, rel stri
 }
 
 var c28Controls = []Control{
+	{Name: "new-leaves-stdout-nil-for-options", Rule: "R28g", WantKey: "Runner.stdout", File: "interp/api.go",
+		Mutate: ctlReplaceAnywhere("\t\tstdout: io.Discard,\n", "")},
+	{Name: "handler-exit-status-zero-keeps-error", Rule: "R28b", WantKey: "Run#panic", File: "interp/api.go",
+		Mutate: ctlReplaceAnywhere("\t\tif es == 0 {\n\t\t\treturn // an odd way for a handler to report success\n\t\t}\n", "")},
 	{Name: "signed-shift-count", Rule: "R28e", WantKey: "binArit#x << y", File: "expand/arith.go",
 		Mutate: ctlReplace("binArit", "x << uint(y)", "x << y", 0)},
 	{Name: "shift-accepts-negative-count", Rule: "R28c", WantKey: "builtin#slice r.Params", File: "interp/builtin.go",
